@@ -710,7 +710,10 @@ class Interp:
                 return eng.cluster_loop(self, s, fr, it)
             if self.desugar_simple_for(s, fr):
                 return
-            raise OutOfSubset(f"loop #{ordn} in {fr.fdef.key if fr.fdef else '?'} has no invariant")
+            why = f"loop #{ordn} in {fr.fdef.key if fr.fdef else '?'} has no invariant"
+            if getattr(self.reg, "bounded_refutation", True) and getattr(self.reg, "cluster_engine", None) is None:
+                return self.unroll_bounded(s, fr, it, why)
+            raise OutOfSubset(why)
         header = ast.unparse(s.test) if isinstance(s, ast.While) else f"for {ast.unparse(s.target)} in {ast.unparse(s.iter)}"
         alias = {}
         if spec.get("header") and spec["header"] != header:
@@ -835,6 +838,70 @@ class Interp:
             self.ctx.cover(f"{fn}#loop{ordn}.exit")
             if hasattr(s, "orelse") and s.orelse:
                 self.exec_block(s.orelse, fr)
+
+    UNROLL = 2
+
+    def unroll_bounded(self, s, fr, it, why):
+        """REFUTATION ONLY.  A loop without invariant cannot be verified; it is unrolled at most UNROLL times so that a
+        counterexample on a short run can still be found and replayed natively.  Every obligation generated from here
+        on is marked `bounded`: discharging it proves nothing (the function stays out of reach), refuting it counts only
+        with a native witness."""
+        self.ctx.note_bounded(f"{why}: unrolled at most {self.UNROLL} times, for refutation only")
+        mo = getattr(it, "members_of", None)
+        if mo is not None:
+            # list(some set / dict): enumerate it as n distinct fresh members, n = 0..UNROLL (no sequence theory needed)
+            arr, et = mo
+            n = self.ctx.choose([z3.BoolVal(True)] * (self.UNROLL + 2), f"members@{s.lineno}")
+            if n > self.UNROLL:
+                raise PathEnd("unroll bound")
+            es = [z3.Const(self.ctx.namer(f"member{i}"), arr.sort().domain()) for i in range(n)]
+            acc = z3.K(arr.sort().domain(), z3.BoolVal(False))
+            for e_ in es:
+                acc = z3.Store(acc, e_, z3.BoolVal(True))
+            self.ctx.assume(arr == acc)
+            if len(es) > 1:
+                self.ctx.assume(z3.Distinct(*es))
+            it = VList([from_z3(e_, et) for e_ in es])
+        if isinstance(it, VList):
+            try:
+                for x in list(it.items):
+                    self.assign(s.target, x, fr)
+                    try:
+                        self.exec_block(s.body, fr)
+                    except ContinueSig:
+                        continue
+                else:
+                    if getattr(s, "orelse", None):
+                        self.exec_block(s.orelse, fr)
+            except BreakSig:
+                pass
+            return
+        try:
+            for k in range(self.UNROLL + 1):
+                if it is None:
+                    enter = self.ctx.branch(self.truth(self.eval(s.test, fr)), f"while@{s.lineno}#{k}")
+                elif isinstance(it, VSeq):
+                    enter = self.ctx.branch(z3.IntVal(k) < z3.Length(it.z), f"for@{s.lineno}#{k}")
+                    if enter:
+                        self.assign(s.target, from_z3(it.z[k], it.elem), fr)
+                elif isinstance(it, VRange):
+                    enter = self.ctx.branch(it.lo + k < it.hi, f"for@{s.lineno}#{k}")
+                    if enter:
+                        self.assign(s.target, VInt(it.lo + k), fr)
+                else:
+                    raise OutOfSubset(why)
+                if not enter:
+                    if getattr(s, "orelse", None):
+                        self.exec_block(s.orelse, fr)
+                    return
+                if k == self.UNROLL:
+                    raise PathEnd("unroll bound")
+                try:
+                    self.exec_block(s.body, fr)
+                except ContinueSig:
+                    pass
+        except BreakSig:
+            return
 
     def desugar_simple_for(self, s, fr):
         """a for loop without a sidecar invariant whose body is one call per element, or one append per element,
@@ -1167,7 +1234,9 @@ class Interp:
         cd0 = cd
         n = 0
         while cd is not None and n < 6:
-            for mname in ("__init__", "__attrs_post_init__"):
+            from .cluster import ctor_closure
+            for mnode in ctor_closure(cd.node):
+                mname = mnode.name
                 m = cd.methods.get(mname)
                 if m is None:
                     continue
